@@ -126,6 +126,9 @@ func (e *Envelope) Sign(key Key) error {
 		return err
 	}
 
+	// The new signature is added to the signatures that are already there
+	env.Signatures = append(e.envelope.Signatures, env.Signatures...)
+
 	e.envelope = env
 	return nil
 }
